@@ -7,8 +7,10 @@
 (*   Engage, UserDone (done()/on_disable()), Tick, SetDur (NT write to a   *)
 (*   '<state>_duration' topic), CallExecute (execute() up to the first     *)
 (*   state function it calls), in-state UserNextState / NextStateNow /     *)
-(*   UserDone, Return (tail of execute()), and for the autonomous variant  *)
-(*   AEnable / AIter / ADisable.                                           *)
+(*   UserDone, Return (tail of execute()), Raise (the running state        *)
+(*   function raises: caught by the state function that called             *)
+(*   next_state_now(), or leaving the outermost execute()), and for the    *)
+(*   autonomous variant AEnable / AIter / ADisable.                        *)
 (*                                                                         *)
 (* Time is in ticks of 1/64 s (exact in IEEE doubles, see DESIGN 3.2).     *)
 (* The machine's shape is the variable sh (never changes after Init) so    *)
@@ -59,11 +61,13 @@ VARIABLES
              \* the invariants are stated for, and MC explores, programs that do not do it (DESIGN 6).
     pure,    \* since the machine (re)started only expiry-driven transitions happened
     inAuto,  \* the current outermost iteration was started by on_iteration()
+    stale,   \* an exception has left an outermost execute() / on_iteration() in this behaviour (the request was not
+             \* consumed, the latch not re-computed: from here on the behaviour is followed, not judged)
     out,     \* callbacks produced by the last step (observation)
     br       \* branch labels taken by the last step (clause ownership)
 
 mvars == <<sh, se, eng, cur, start, now, ran, st0, exp, dur, ntcur, autoOn, latchSet, stack, acted, req, post,
-           ncalls, nsn, dflag, udone, pure, inAuto, out, br>>
+           ncalls, nsn, dflag, udone, pure, inAuto, stale, out, br>>
 
 States   == sh.states
 IsDef(s) == s = sh.default
@@ -80,7 +84,7 @@ Init(shape) ==
     /\ dur = [s \in shape.states |-> shape.durOf[s]]
     /\ ntcur = "" /\ autoOn = FALSE /\ latchSet = FALSE /\ stack = <<>> /\ acted = 0 /\ req = FALSE /\ post = FALSE
     /\ ncalls = 0 /\ nsn = 0 /\ dflag = FALSE /\ udone = FALSE /\ pure = FALSE /\ inAuto = FALSE
-    /\ out = <<>> /\ br = <<>>
+    /\ stale = FALSE /\ out = <<>> /\ br = <<>>
 
 (* the part of the state execute() works on, as a record, so that execute() is one operator *)
 Rec == [se |-> se, eng |-> eng, cur |-> cur, start |-> start, ran |-> ran, st0 |-> st0,
@@ -172,7 +176,7 @@ Engage(init, force) ==
     /\ acted' = (IF stack # <<>> THEN acted + 1 ELSE 0)
     /\ post' = FALSE /\ dflag' = FALSE
     /\ req' = (req \/ stack # <<>>)      \* an engage() made by the running state function counts for this iteration
-    /\ UNCHANGED <<sh, now, dur, stack, ncalls, nsn, udone, inAuto, latchSet>>
+    /\ UNCHANGED <<sh, now, dur, stack, ncalls, nsn, udone, inAuto, latchSet, stale>>
 
 UserDone ==        \* done() or on_disable(), between iterations or from inside a state function
     /\ (AtTop \/ InState)
@@ -180,18 +184,18 @@ UserDone ==        \* done() or on_disable(), between iterations or from inside 
     /\ acted' = (IF stack # <<>> THEN acted + 1 ELSE 0) /\ post' = FALSE /\ dflag' = TRUE
     /\ udone' = (stack # <<>>)
     /\ latchSet' = (latchSet \/ sh.auto)
-    /\ UNCHANGED <<sh, now, dur, stack, req, ncalls, nsn, inAuto>>
+    /\ UNCHANGED <<sh, now, dur, stack, req, ncalls, nsn, inAuto, stale>>
 
 Tick(d) ==
     /\ AtTop /\ now' = now + d /\ out' = <<>> /\ br' = <<>> /\ post' = FALSE
     /\ UNCHANGED <<sh, se, eng, cur, start, ran, st0, exp, dur, ntcur, autoOn, latchSet, stack, acted, req,
-                   ncalls, nsn, dflag, udone, pure, inAuto>>
+                   ncalls, nsn, dflag, udone, pure, inAuto, stale>>
 
 SetDur(s, d) ==    \* a NetworkTables client writes the duration topic
     /\ AtTop /\ s \in States /\ Timed(s) /\ dur' = [dur EXCEPT ![s] = d]
     /\ out' = <<>> /\ br' = <<>> /\ post' = FALSE /\ pure' = FALSE
     /\ UNCHANGED <<sh, se, eng, cur, start, now, ran, st0, exp, ntcur, autoOn, latchSet, stack, acted, req,
-                   ncalls, nsn, dflag, udone, inAuto>>
+                   ncalls, nsn, dflag, udone, inAuto, stale>>
 
 (***************************************************************************)
 (* execute(), state functions, return                                      *)
@@ -204,12 +208,12 @@ EnterExec(r0, top, auto) ==
     /\ latchSet' = (latchSet \/ (sh.auto /\ \E i \in 1..Len(x.r.out) : x.r.out[i].e = "done"))
     /\ IF x.call # None
        THEN /\ Commit(x.r) /\ stack' = Append(stack, x.call) /\ acted' = (IF top THEN 0 ELSE acted + 1) /\ post' = FALSE
-            /\ ncalls' = (IF top THEN 0 ELSE ncalls) + 1
+            /\ ncalls' = (IF top THEN 0 ELSE ncalls) + 1 /\ stale' = stale
        ELSE /\ LET consumes == top \/ NestedConsumes
                    r1 == IF x.early \/ ~consumes THEN x.r ELSE [x.r EXCEPT !.se = FALSE]
                IN Commit(IF top THEN LatchAfter(r1, auto) ELSE r1)
             /\ stack' = stack /\ acted' = (IF top THEN 0 ELSE acted + 1) /\ post' = top
-            /\ ncalls' = (IF top THEN 0 ELSE ncalls)
+            /\ ncalls' = (IF top THEN 0 ELSE ncalls) /\ stale' = stale
 
 CallExecute ==
     /\ AtTop /\ req' = se /\ nsn' = 0 /\ inAuto' = FALSE
@@ -219,7 +223,7 @@ CallExecute ==
 UserNextState(s) ==
     /\ InState /\ s \in States
     /\ Commit([RNextState(Rec, s) EXCEPT !.pure = FALSE]) /\ acted' = acted + 1 /\ post' = FALSE
-    /\ UNCHANGED <<sh, now, dur, stack, req, ncalls, nsn, dflag, udone, inAuto, latchSet>>
+    /\ UNCHANGED <<sh, now, dur, stack, req, ncalls, nsn, dflag, udone, inAuto, latchSet, stale>>
 
 NextStateNow(s) ==
     /\ InState /\ s \in States
@@ -236,8 +240,23 @@ Return ==
     /\ se' = (IF Len(stack) = 1 \/ NestedConsumes THEN FALSE ELSE se)
     /\ br' = <<>> /\ out' = <<>> /\ post' = (Len(stack) = 1)
     /\ autoOn' = IF Len(stack) = 1 /\ inAuto THEN eng ELSE autoOn
+    /\ stale' = stale
     /\ UNCHANGED <<sh, eng, cur, start, now, ran, st0, exp, dur, ntcur, req, ncalls, nsn, dflag, udone,
                    pure, inAuto, latchSet>>
+
+\* The running state function raises.  caught: the state function one frame below - the one that called
+\* next_state_now() - catches the exception and carries on (the nested frame is gone, nothing else happened).
+\* Otherwise the exception leaves the outermost execute() / on_iteration(): every frame is gone, and - as
+\* implemented - the engage() request is NOT consumed (execute() is left before the flag is cleared) and the
+\* autonomous latch is not re-computed.  C01-C04/C13 do not quantify over raising state functions; this is what
+\* the code does, so that everything after the exception is still judged.
+Raise(caught) ==
+    /\ stack # <<>> /\ (caught => Len(stack) > 1)
+    /\ stack' = (IF caught THEN SubSeq(stack, 1, Len(stack) - 1) ELSE <<>>)
+    /\ br' = <<"Raise">> /\ out' = <<>> /\ post' = FALSE
+    /\ stale' = (stale \/ ~caught)
+    /\ UNCHANGED <<sh, se, eng, cur, start, now, ran, st0, exp, dur, ntcur, autoOn, latchSet, acted, req, ncalls, nsn,
+                   dflag, udone, pure, inAuto>>
 
 (***************************************************************************)
 (* AutonomousStateMachine                                                  *)
@@ -246,7 +265,7 @@ AEnable ==
     /\ AtTop /\ sh.auto
     /\ autoOn' = TRUE /\ latchSet' = TRUE /\ out' = <<>> /\ br' = <<>> /\ post' = FALSE
     /\ UNCHANGED <<sh, se, eng, cur, start, now, ran, st0, exp, dur, ntcur, stack, acted, req,
-                   ncalls, nsn, dflag, udone, pure, inAuto>>
+                   ncalls, nsn, dflag, udone, pure, inAuto, stale>>
 
 AIter ==           \* on_iteration(): if latched, engage(); execute(); latch := is_executing
     /\ AtTop /\ sh.auto
@@ -259,7 +278,7 @@ AIter ==           \* on_iteration(): if latched, engage(); execute(); latch := 
             /\ UNCHANGED <<sh, now, dur>>
        ELSE /\ out' = <<>> /\ br' = <<"AutoIdle">> /\ post' = FALSE
             /\ UNCHANGED <<sh, se, eng, cur, start, now, ran, st0, exp, dur, ntcur, autoOn, latchSet,
-                           stack, acted, req, ncalls, nsn, dflag, udone, pure, inAuto>>
+                           stack, acted, req, ncalls, nsn, dflag, udone, pure, inAuto, stale>>
 
 ADisable == UserDone /\ sh.auto
 
@@ -274,6 +293,7 @@ EvNext(ev) ==
       [] ev.e = "ns"       -> UserNextState(ev.s)
       [] ev.e = "nsnow"    -> NextStateNow(ev.s)
       [] ev.e = "ret"      -> Return
+      [] ev.e = "raise"    -> Raise(ev.caught)
       [] ev.e = "aenable"  -> AEnable
       [] ev.e = "aiter"    -> AIter
       [] ev.e = "adisable" -> ADisable /\ AtTop
@@ -287,6 +307,7 @@ EvEnabled(ev) ==
       [] ev.e = "done"    -> AtTop \/ InState
       [] ev.e \in {"ns", "nsnow"} -> InState /\ ev.s \in States
       [] ev.e = "ret"     -> stack # <<>>
+      [] ev.e = "raise"   -> stack # <<>> /\ (ev.caught => Len(stack) > 1)
       [] ev.e \in {"aenable", "aiter", "adisable"} -> AtTop /\ sh.auto
       [] OTHER -> FALSE
 
@@ -298,57 +319,60 @@ Obs == [exec |-> eng, cur |-> ntcur, cb |-> out]
 Calls == SelectSeq(out, LAMBDA e : e.e = "call")
 Dones == SelectSeq(out, LAMBDA e : e.e = "done")
 Has(b) == \E i \in 1..Len(br) : br[i] = b
+\* C01-C04/C13 are stated for state functions that return; once an exception has left execute() the behaviour
+\* is described (the acceptor follows it) but no longer judged
+Judged == ~stale
 
 \* C01: a regular (neither default nor must_finish) state function is called only in an iteration
 \*      before which engage() was called
 C01_RegularOnlyWhenRequested ==
-    [][\A i \in 1..Len(Calls') : (out' # out /\ Regular(Calls'[i].s)) => req']_mvars
+    [][\A i \in 1..Len(Calls') : (Judged' /\ out' # out /\ Regular(Calls'[i].s)) => req']_mvars
 \* C01: without the request the machine is stopped unless it sits in a must_finish state
 \*      (an execute() that begins without the request while a regular state is current stops the machine)
 C01_StopsWithoutRequest ==
-    [][(AtTop /\ ~se /\ cur # None /\ Regular(cur) /\ (stack' # <<>> \/ post') /\ ~inAuto')
+    [][(Judged' /\ AtTop /\ ~se /\ cur # None /\ Regular(cur) /\ (stack' # <<>> \/ post') /\ ~inAuto')
           => (cur' = None \/ cur' = sh.default)]_mvars
 \*      ... and an iteration that ran no state function at all leaves no regular state current
 C01_IdleIterationLeavesNothing ==
-    (post /\ ~req /\ ncalls = 0) => (cur = None \/ cur = sh.default)
+    (Judged /\ post /\ ~req /\ ncalls = 0) => (cur = None \/ cur = sh.default)
 \* C01: requested and not done()'d: exactly one state function per iteration, plus one per next_state_now
 C01_ExactlyOne ==
-    (post /\ req /\ ~dflag /\ ~sh.auto) => (ncalls = 1 + nsn)
+    (Judged /\ post /\ req /\ ~dflag /\ ~sh.auto) => (ncalls = 1 + nsn)
 \* C01: the default state never runs in an iteration that was requested and not done()'d
 C01_NoDefaultWhileRequested ==
-    [][\A i \in 1..Len(Calls') : (out' # out /\ IsDef(Calls'[i].s) /\ ~sh.auto) => (~req' \/ dflag')]_mvars
+    [][\A i \in 1..Len(Calls') : (Judged' /\ out' # out /\ IsDef(Calls'[i].s) /\ ~sh.auto) => (~req' \/ dflag')]_mvars
 
 \* C02/C03: times are never negative
-C03_NonNegative == \A i \in 1..Len(Calls) : Calls[i].tm >= 0 /\ Calls[i].stm >= 0
+C03_NonNegative == Judged => \A i \in 1..Len(Calls) : Calls[i].tm >= 0 /\ Calls[i].stm >= 0
 \* C02: a timed state is only ever called again while tm <= entry + duration
 C02_WithinDuration ==
-    \A i \in 1..Len(Calls) : (~Calls[i].ic /\ exp[Calls[i].s] # Inf) => Calls[i].tm <= exp[Calls[i].s]
+    \A i \in 1..Len(Calls) : (Judged /\ ~Calls[i].ic /\ exp[Calls[i].s] # Inf) => Calls[i].tm <= exp[Calls[i].s]
 \* C02: a state entered by expiry of its predecessor starts at the predecessor's expiry instant
 C02_SuccessorStartsAtExpiry ==
-    [][(\E i \in 1..Len(br') : br'[i] = "ExpireNext") /\ cur # None /\ Len(Calls') = 1
+    [][Judged' /\ (\E i \in 1..Len(br') : br'[i] = "ExpireNext") /\ cur # None /\ Len(Calls') = 1
          => st0'[Calls'[1].s] = exp[cur]]_mvars
 \* C02: when a continuously engaged machine starts over, the origin moves to the expiry instant
 \*      and the first state is entered at machine time 0
 C02_CycleRestartsAtExpiry ==
-    [][(\E i \in 1..Len(br') : br'[i] = "ExpireLastCycle") /\ cur # None
+    [][Judged' /\ (\E i \in 1..Len(br') : br'[i] = "ExpireLastCycle") /\ cur # None
          => (start' = start + exp[cur] /\ Len(Calls') = 1 /\ Calls'[1].s = sh.first
              /\ Calls'[1].ic /\ st0'[sh.first] = 0)]_mvars
 \* C04: stopped means reset
-C04_StoppedMeansReset == (post /\ (cur = None \/ cur = sh.default)) => (~eng /\ ntcur = "")
+C04_StoppedMeansReset == (Judged /\ post /\ (cur = None \/ cur = sh.default)) => (~eng /\ ntcur = "")
 \* C04: running means is_executing and current_state names the state that runs next
 C04_RunningMeansExecuting ==
-    (post /\ cur # None /\ cur # sh.default /\ ncalls > 0) => (eng /\ ntcur = cur)
+    (Judged /\ post /\ cur # None /\ cur # sh.default /\ ncalls > 0) => (eng /\ ntcur = cur)
 \* C04: leaving "a regular state is current" for "none/default" always passes through done()
 C04_StopCallsDone ==
-    [][(cur # None /\ cur # sh.default /\ eng /\ (cur' = None \/ cur' = sh.default)) => Len(Dones') > 0]_mvars
+    [][(Judged' /\ cur # None /\ cur # sh.default /\ eng /\ (cur' = None \/ cur' = sh.default)) => Len(Dones') > 0]_mvars
 \* C04: the first iteration after a stop starts at tm = 0 with initial_call
 C04_RestartAtZero ==
-    [][(\E i \in 1..Len(br') : br'[i] = "Start") /\ Len(Calls') = 1
+    [][(\E i \in 1..Len(br') : br'[i] = "Start") /\ Len(Calls') = 1 /\ Judged'
          => (Calls'[1].tm = 0 /\ Calls'[1].ic)]_mvars
 \* C13: the autonomous variant never cycles, and is silent once it has stopped
-C13_NeverCycles == sh.auto => ~Has("ExpireLastCycle")
+C13_NeverCycles == (sh.auto /\ Judged) => ~Has("ExpireLastCycle")
 C13_SilentWhenOff ==
-    [][(sh.auto /\ ~autoOn /\ AtTop /\ out' # out /\ ~(autoOn')) => Len(Calls') = 0]_mvars
-C13_LatchFollowsExecuting == (sh.auto /\ post /\ inAuto) => (autoOn = eng)
-C13_OffMeansNotExecuting == (sh.auto /\ AtTop /\ ~autoOn) => ~eng
+    [][(Judged' /\ sh.auto /\ ~autoOn /\ AtTop /\ out' # out /\ ~(autoOn')) => Len(Calls') = 0]_mvars
+C13_LatchFollowsExecuting == (Judged /\ sh.auto /\ post /\ inAuto) => (autoOn = eng)
+C13_OffMeansNotExecuting == (Judged /\ sh.auto /\ AtTop /\ ~autoOn) => ~eng
 =============================================================================
